@@ -21,6 +21,18 @@
 (* property predicates below are stable (once false they stay false), so   *)
 (* their verdict does not depend on the chosen interleaving.               *)
 (*                                                                         *)
+(* MEMBERSHIP: the orchestrator records every request it makes (a process   *)
+(* started with -join, a POST /part) and the configuration the LEADER then  *)
+(* reports in its machine-readable /status (raft GetConfiguration).  The    *)
+(* trace specification keeps the configuration `members`; a reported        *)
+(* configuration must be explained by the requests made so far, one server  *)
+(* at a time.  A node that joins late starts on an empty -raftdir, so every *)
+(* "restored" record of its stream is an InstallSnapshot: its applications  *)
+(* continue behind the snapshot (gaps are checked like everywhere else), a  *)
+(* snapshot never takes a node backwards, and at quiescence every member -  *)
+(* late joiners included - serves the same streams and holds the same       *)
+(* serialised state; a removed node that still answers serves a prefix.     *)
+(*                                                                         *)
 (* The COMMIT POINTS are inferred: the first node that reports             *)
 (* FSM.Apply(idx) fixes entry idx of the committed sequence `log`; every   *)
 (* other application of idx (other nodes, replay after restart) must agree.*)
@@ -52,10 +64,18 @@ VARIABLES
   redeliv,    \* number of re-deliveries of x.1..x.r after resuming at x.r (C04 / F6)
   mismatch,   \* delivered numbered lines that do not match the committed entry they claim
   finals,     \* finals[<<n, s>>]: complete stream read from node n after quiescence
+  members,    \* the raft configuration (node numbers), as explained by the requests made
+  cfgreq,     \* membership requests made whose effect has not been seen yet: [kind, n]
+  nchanges,   \* number of configuration changes seen
+  stales,     \* stales[<<n, s>>]: stream read after quiescence from a node that was removed
+  states,     \* states[n]: hash of the serialised state of member n in the current round of
+              \* readings (0: not read), taken when everything was applied everywhere
+  sround,     \* the current round of readings
   chg         \* what the last step changed (invariants are evaluated where they can change)
 
+mvars == <<members, cfgreq, nchanges, stales, states, sround>>
 vars == <<pos, started, log, posted, acked, last, gaps, conflicts, seqs, dups, redeliv,
-          mismatch, finals, chg>>
+          mismatch, finals, members, cfgreq, nchanges, stales, states, sround, chg>>
 
 NoKey == <<0, 0>>
 
@@ -73,6 +93,12 @@ Init ==
   /\ redeliv = 0
   /\ mismatch = {}
   /\ finals = [k \in Keys |-> << >>]
+  /\ members = {Meta.members[i] : i \in 1..Len(Meta.members)}
+  /\ cfgreq = {}
+  /\ nchanges = 0
+  /\ stales = [k \in Keys |-> << >>]
+  /\ states = [n \in NodeIds |-> 0]
+  /\ sround = 0
   /\ chg = [kind |-> "init", key |-> NoKey]
 
 More(st) == pos[st] <= Len(T[st])
@@ -104,7 +130,7 @@ Apply(st, e) ==
                THEN [gaps EXCEPT ![st] = @ \cup {<<last[st], e.idx>>}] ELSE gaps
   /\ last' = [last EXCEPT ![st] = IF e.idx > @ THEN e.idx ELSE @]
   /\ chg' = [kind |-> "log", key |-> NoKey]
-  /\ UNCHANGED <<started, posted, acked, seqs, dups, redeliv, mismatch, finals>>
+  /\ UNCHANGED <<started, posted, acked, seqs, dups, redeliv, mismatch, finals, mvars>>
 
 \* applyMessageWait returned on the proposing node: the entry is committed and
 \* applied HERE (hook H3 sits after the raft future, before the HTTP reply)
@@ -113,21 +139,24 @@ AckPoint(st, e) ==
   /\ e.idx \in LogIdx /\ At(e.idx).c = e.c /\ At(e.idx).cmid = e.cmid
   /\ last[st] >= e.idx
   /\ chg' = [kind |-> "none", key |-> NoKey]
-  /\ UNCHANGED <<started, log, posted, acked, last, gaps, conflicts, seqs, dups, redeliv, mismatch, finals>>
+  /\ UNCHANGED <<started, log, posted, acked, last, gaps, conflicts, seqs, dups, redeliv, mismatch, finals, mvars>>
 
 \* FSM.Snapshot returned: only applied entries can be in it
 Snapshot(st, e) ==
   /\ e.ev = "snapshot"
   /\ e.last <= last[st]
   /\ chg' = [kind |-> "none", key |-> NoKey]
-  /\ UNCHANGED <<started, log, posted, acked, last, gaps, conflicts, seqs, dups, redeliv, mismatch, finals>>
+  /\ UNCHANGED <<started, log, posted, acked, last, gaps, conflicts, seqs, dups, redeliv, mismatch, finals, mvars>>
 
 \* FSM.Restore returned: the node's state is the snapshot, i.e. everything up to e.last
+\* (at start-up from the node's own newest snapshot; later - InstallSnapshot - from the
+\* leader's, which replaces a state that lags behind: a restore never goes backwards)
 Restored(st, e) ==
   /\ e.ev = "restored"
   /\ last' = [last EXCEPT ![st] = e.last]
-  /\ chg' = [kind |-> "none", key |-> NoKey]
-  /\ UNCHANGED <<started, log, posted, acked, gaps, conflicts, seqs, dups, redeliv, mismatch, finals>>
+  /\ conflicts' = IF e.last < last[st] THEN conflicts \cup {e.last} ELSE conflicts
+  /\ chg' = [kind |-> "log", key |-> NoKey]
+  /\ UNCHANGED <<started, log, posted, acked, gaps, seqs, dups, redeliv, mismatch, finals, mvars>>
 
 \* the enabling conditions of the node events, spelled out (all monotone)
 NodeGuard(st, e) ==
@@ -157,26 +186,26 @@ Start(e) ==
   /\ e.ev = "start"
   /\ started' = started \cup {e.st2}
   /\ chg' = [kind |-> "none", key |-> NoKey]
-  /\ UNCHANGED <<log, posted, acked, last, gaps, conflicts, seqs, dups, redeliv, mismatch, finals>>
+  /\ UNCHANGED <<log, posted, acked, last, gaps, conflicts, seqs, dups, redeliv, mismatch, finals, mvars>>
 
 \* logged after waitpid: every event of that incarnation happened before
 Killed(e) ==
   /\ e.ev = "killed"
   /\ ~More(e.st2)
   /\ chg' = [kind |-> "none", key |-> NoKey]
-  /\ UNCHANGED <<started, log, posted, acked, last, gaps, conflicts, seqs, dups, redeliv, mismatch, finals>>
+  /\ UNCHANGED <<started, log, posted, acked, last, gaps, conflicts, seqs, dups, redeliv, mismatch, finals, mvars>>
 
 Post(e) ==
   /\ e.ev = "post"
   /\ posted' = posted \cup {[c |-> e.c, cmid |-> e.cmid]}
   /\ chg' = [kind |-> "none", key |-> NoKey]
-  /\ UNCHANGED <<started, log, acked, last, gaps, conflicts, seqs, dups, redeliv, mismatch, finals>>
+  /\ UNCHANGED <<started, log, acked, last, gaps, conflicts, seqs, dups, redeliv, mismatch, finals, mvars>>
 
 Ack(e) ==
   /\ e.ev = "ack"
   /\ acked' = acked \cup {[c |-> e.c, cmid |-> e.cmid]}
   /\ chg' = [kind |-> "ack", key |-> NoKey]
-  /\ UNCHANGED <<started, log, posted, last, gaps, conflicts, seqs, dups, redeliv, mismatch, finals>>
+  /\ UNCHANGED <<started, log, posted, last, gaps, conflicts, seqs, dups, redeliv, mismatch, finals, mvars>>
 
 \* a long-poll reader of session e.s got message e.idx.e.reply from node e.n
 Recv(e) ==
@@ -191,20 +220,78 @@ Recv(e) ==
         /\ mismatch' = IF Matches(m) THEN mismatch
                          ELSE mismatch \cup {[n |-> e.n, s |-> e.s, idx |-> e.idx, reply |-> e.reply]}
         /\ chg' = [kind |-> "seqs", key |-> k]
-  /\ UNCHANGED <<started, log, posted, acked, last, gaps, conflicts, finals>>
+  /\ UNCHANGED <<started, log, posted, acked, last, gaps, conflicts, finals, mvars>>
 
 \* the complete stream of session e.s read from node e.n after quiescence
 Final(e) ==
-  /\ e.ev = "final"
+  /\ e.ev = "final" /\ ~e.stale
   /\ finals' = [finals EXCEPT ![<<e.n, e.s>>] = e.msgs]
   /\ mismatch' = mismatch \cup {[n |-> e.n, s |-> e.s, idx |-> e.msgs[i].idx, reply |-> e.msgs[i].reply] :
                                    i \in {j \in 1..Len(e.msgs) : ~Matches(e.msgs[j])}}
   /\ chg' = [kind |-> "final", key |-> <<e.n, e.s>>]
-  /\ UNCHANGED <<started, log, posted, acked, last, gaps, conflicts, seqs, dups, redeliv>>
+  /\ UNCHANGED <<started, log, posted, acked, last, gaps, conflicts, seqs, dups, redeliv, mvars>>
+
+\* ... and what a node that was removed from the network, but still answers, serves
+StaleFinal(e) ==
+  /\ e.ev = "final" /\ e.stale
+  /\ stales' = [stales EXCEPT ![<<e.n, e.s>>] = e.msgs]
+  /\ mismatch' = mismatch \cup {[n |-> e.n, s |-> e.s, idx |-> e.msgs[i].idx, reply |-> e.msgs[i].reply] :
+                                   i \in {j \in 1..Len(e.msgs) : ~Matches(e.msgs[j])}}
+  /\ chg' = [kind |-> "stale", key |-> <<e.n, e.s>>]
+  /\ UNCHANGED <<started, log, posted, acked, last, gaps, conflicts, seqs, dups, redeliv, finals,
+                 members, cfgreq, nchanges, states, sround>>
+
+\* the serialised state (IRCServer.Marshal, read from /status/state) of member e.n
+State(e) ==
+  /\ e.ev = "state"
+  /\ states' = [n \in NodeIds |-> IF n = e.n THEN e.h ELSE IF e.round = sround THEN states[n] ELSE 0]
+  /\ sround' = e.round
+  /\ chg' = [kind |-> "state", key |-> <<e.n, 0>>]
+  /\ UNCHANGED <<started, log, posted, acked, last, gaps, conflicts, seqs, dups, redeliv, mismatch, finals,
+                 members, cfgreq, nchanges, stales>>
+
+\* a membership request goes out: a fresh process started with -join, or POST /part
+CfgReq(e) ==
+  /\ e.ev = "cfgreq"
+  /\ (e.kind = "join" => e.n \notin members \/ [kind |-> "part", n |-> e.n] \in cfgreq)
+  /\ (e.kind = "part" => e.n \in members \/ [kind |-> "join", n |-> e.n] \in cfgreq)
+  /\ cfgreq' = cfgreq \cup {[kind |-> e.kind, n |-> e.n]}
+  /\ chg' = [kind |-> "none", key |-> NoKey]
+  /\ UNCHANGED <<started, log, posted, acked, last, gaps, conflicts, seqs, dups, redeliv, mismatch, finals,
+                 members, nchanges, stales, states, sround>>
+
+\* the configurations that the requests R explain, starting from M (any subset of them
+\* may have taken effect; hashicorp/raft applies them one server at a time)
+ApplyReqs(M, R) == (M \cup {r.n : r \in {x \in R : x.kind = "join"}}) \ {r.n : r \in {x \in R : x.kind = "part"}}
+Explained(M, R) == {ApplyReqs(M, S) : S \in SUBSET R}
+Visible(r, P) == IF r.kind = "join" THEN r.n \in P ELSE r.n \notin P
+
+\* the leader reports its latest configuration (e.ok: the orchestrator saw the change it
+\* had asked for; "observe": just looking, after the faults were healed)
+Cfg(e) ==
+  /\ e.ev = "cfg"
+  /\ LET P == {e.peers[i] : i \in 1..Len(e.peers)} IN
+       /\ P \in Explained(members, cfgreq)
+       /\ (e.ok /\ e.kind # "observe") => /\ [kind |-> e.kind, n |-> e.n] \in cfgreq
+                                           /\ Visible([kind |-> e.kind, n |-> e.n], P)
+       /\ members' = P
+       /\ nchanges' = nchanges + Cardinality((P \ members) \cup (members \ P))
+       /\ cfgreq' = {r \in cfgreq : ~Visible(r, P)}
+  /\ chg' = [kind |-> "cfg", key |-> NoKey]
+  /\ UNCHANGED <<started, log, posted, acked, last, gaps, conflicts, seqs, dups, redeliv, mismatch, finals,
+                 stales, states, sround>>
+
+\* the run is over: every member was read
+Done(e) ==
+  /\ e.ev = "done"
+  /\ \A n \in members : states[n] # 0
+  /\ chg' = [kind |-> "none", key |-> NoKey]
+  /\ UNCHANGED <<started, log, posted, acked, last, gaps, conflicts, seqs, dups, redeliv, mismatch, finals, mvars>>
 
 OrchStep ==
   LET e == HeadOf(1) IN
-  /\ (Start(e) \/ Killed(e) \/ Post(e) \/ Ack(e) \/ Recv(e) \/ Final(e))
+  /\ (Start(e) \/ Killed(e) \/ Post(e) \/ Ack(e) \/ Recv(e) \/ Final(e) \/ StaleFinal(e) \/ State(e)
+        \/ CfgReq(e) \/ Cfg(e) \/ Done(e))
   /\ Advance(1)
 
 Finished == \A st \in Streams : ~More(st)
@@ -259,13 +346,26 @@ FinalsEqual ==
      \A n \in NodeIds : finals[<<n, chg.key[2]>>] # << >> => finals[<<n, chg.key[2]>>] = finals[chg.key]
 ResumedIsPrefixOfFinal == chg.kind = "final" => IsPrefix(seqs[chg.key], finals[chg.key])
 
+\* (B) for a node that was removed from the network and still answers: what it serves is
+\* a prefix of what the members serve (read before it)
+StaleIsPrefix ==
+  chg.kind = "stale" =>
+     \A n \in NodeIds : finals[<<n, chg.key[2]>>] # << >> => IsPrefix(stales[chg.key], finals[<<n, chg.key[2]>>])
+
+\* C02-style, across nodes: whenever everything is applied everywhere, every member - whether it applied every entry
+\* itself, restarted from its own snapshot, or got its state by InstallSnapshot - holds
+\* the same serialised state
+StatesEqual ==
+  chg.kind = "state" => \A n \in NodeIds : states[n] # 0 => states[n] = states[chg.key[1]]
+
 \* shown instead of the full state in error traces
-Alias == [pos |-> pos, chg |-> chg, conflicts |-> conflicts, dups |-> dups,
+Alias == [pos |-> pos, chg |-> chg, conflicts |-> conflicts, dups |-> dups, members |-> members, cfgreq |-> cfgreq,
           mismatch |-> mismatch, redeliv |-> redeliv, loglen |-> Len(log),
           heads |-> [st \in Streams |-> IF More(st) THEN HeadOf(st) ELSE [ev |-> "end"]]]
 
 \* statistics for the evidence file, printed once at the end
 Stats == Finished => PrintT(<<"STATS", ToJson([events |-> Len(Trace) - 1, log |-> Len(log),
                         acked |-> Cardinality(acked), redeliv |-> redeliv,
+                        members |-> Cardinality(members), cfgchanges |-> nchanges,
                         delivered |-> [k \in Keys |-> Len(seqs[k])]])>>)
 =============================================================================
